@@ -183,7 +183,8 @@ static void do_scan(YR_RULES* rules, const uint8_t* buf, size_t len, const char*
 {
   SCANOBS o; memset(&o, 0, sizeof o);
   o.tmm_mode = get("cb", "c")[0]; o.prefix = prefix;
-  yr_get_configuration_uint32(YR_CONFIG_MAX_MATCH_DATA, &o.mmd);
+  // the match-data bound the CASE configured (not what the library says it is now: a limit that was silently lost must show)
+  if (geti("mmd", -1) >= 0) o.mmd = (uint32_t) geti("mmd", 0); else yr_get_configuration_uint32(YR_CONFIG_MAX_MATCH_DATA, &o.mmd);
   YR_SCANNER* sc = NULL;
   int rc = yr_scanner_create(rules, &sc);
   if (rc != ERROR_SUCCESS) { printf(" %s=SCANNER:%s", label, errname(rc)); return; }
@@ -280,6 +281,12 @@ static void do_scanblocks(YR_RULES* rules)
   yr_scanner_destroy(sc); free(it.data);
 }
 
+static int count_cb(YR_SCAN_CONTEXT* ctx, int msg, void* data, void* ud)
+{
+  if (msg == CALLBACK_MSG_RULE_MATCHING) (*(int*) ud)++;
+  return CALLBACK_CONTINUE;
+}
+
 static void sanity(void)
 {
   // library usable afterwards: default configuration, fresh compiler, fresh scan
@@ -305,21 +312,46 @@ static void sanity(void)
   printf(" sane=%d", ok && hit);
 }
 
+// nest=<k>: after the limits are configured, another component of the process uses the library too: k nested
+// yr_initialize() calls, each followed at once by its yr_finalize() (nestopen=0) or finalized only when the case is over
+// (nestopen=1).  The configured limits are then read back (printed) and the case goes on to exercise them.
+static int g_nest_open;
+static void nested_use(void)
+{
+  int k = (int) geti("nest", 0);
+  for (int i = 0; i < k; i++)
+  {
+    if (yr_initialize() != ERROR_SUCCESS) { printf(" NESTED_INIT_FAILED"); continue; }
+    if (geti("nestopen", 0)) g_nest_open++; else yr_finalize();
+  }
+}
 static void set_cfg(void)
 {
   long long v;
   if ((v = geti("ss", -1)) >= 0) yr_set_configuration_uint32(YR_CONFIG_STACK_SIZE, (uint32_t) v);
   if ((v = geti("mspr", -1)) >= 0) yr_set_configuration_uint32(YR_CONFIG_MAX_STRINGS_PER_RULE, (uint32_t) v);
   if ((v = geti("mmd", -1)) >= 0) yr_set_configuration_uint32(YR_CONFIG_MAX_MATCH_DATA, (uint32_t) v);
+  if (get("chunk", NULL)) yr_set_configuration_uint64(YR_CONFIG_MAX_PROCESS_MEMORY_CHUNK, strtoull(get("chunk", "0"), 0, 10));
+  if (get("nest", NULL))
+  {
+    nested_use();
+    uint32_t g = 0; uint64_t g64 = 0;
+    if (get("ss", NULL)) { yr_get_configuration_uint32(YR_CONFIG_STACK_SIZE, &g); printf(" cfg.ss=%u", g); }
+    if (get("mspr", NULL)) { yr_get_configuration_uint32(YR_CONFIG_MAX_STRINGS_PER_RULE, &g); printf(" cfg.mspr=%u", g); }
+    if (get("mmd", NULL)) { yr_get_configuration_uint32(YR_CONFIG_MAX_MATCH_DATA, &g); printf(" cfg.mmd=%u", g); }
+    if (get("chunk", NULL)) { yr_get_configuration_uint64(YR_CONFIG_MAX_PROCESS_MEMORY_CHUNK, &g64); printf(" cfg.chunk=%llu", (unsigned long long) g64); }
+  }
 }
 // the configuration installed by yr_initialize (captured in main), so that cases without explicit
 // settings run under the library's real defaults
-static uint32_t init_ss, init_mspr, init_mmd;
+static uint32_t init_ss, init_mspr, init_mmd; static uint64_t init_chunk;
 static void reset_cfg(void)
 {
+  while (g_nest_open > 0) { yr_finalize(); g_nest_open--; }
   yr_set_configuration_uint32(YR_CONFIG_STACK_SIZE, init_ss);
   yr_set_configuration_uint32(YR_CONFIG_MAX_STRINGS_PER_RULE, init_mspr);
   yr_set_configuration_uint32(YR_CONFIG_MAX_MATCH_DATA, init_mmd);
+  yr_set_configuration_uint64(YR_CONFIG_MAX_PROCESS_MEMORY_CHUNK, init_chunk);
 }
 
 // ------------------------------------------------------------------ function-level commands
@@ -438,6 +470,7 @@ int main()
   yr_get_configuration_uint32(YR_CONFIG_STACK_SIZE, &init_ss);
   yr_get_configuration_uint32(YR_CONFIG_MAX_STRINGS_PER_RULE, &init_mspr);
   yr_get_configuration_uint32(YR_CONFIG_MAX_MATCH_DATA, &init_mmd);
+  yr_get_configuration_uint64(YR_CONFIG_MAX_PROCESS_MEMORY_CHUNK, &init_chunk);
   while (getline(&line, &cap, stdin) > 0)
   {
     int n = split(line, toks, MAXKV + 2);
@@ -509,27 +542,71 @@ int main()
         {
           uint64_t ones = ~0ULL, in = v, o1 = 0x5555555555555555ULL, o2 = 0x5555555555555555ULL, o3 = 0x5555555555555555ULL;
           yr_set_configuration((YR_CONFIG_NAME) key, &ones);
-          r1 = yr_set_configuration((YR_CONFIG_NAME) key, &in);
+          r1 = yr_set_configuration((YR_CONFIG_NAME) key, &in); nested_use();
           r2 = yr_get_configuration((YR_CONFIG_NAME) key, &o1); r3 = yr_get_configuration_uint64((YR_CONFIG_NAME) key, &o2);
           yr_set_configuration((YR_CONFIG_NAME) key, &ones);
-          r4 = yr_set_configuration_uint64((YR_CONFIG_NAME) key, v); r5 = yr_get_configuration((YR_CONFIG_NAME) key, &o3);
+          r4 = yr_set_configuration_uint64((YR_CONFIG_NAME) key, v); nested_use(); r5 = yr_get_configuration((YR_CONFIG_NAME) key, &o3);
           g1 = o1; g2 = o2; g3 = o3;
         }
         else
         {
           uint32_t ones = ~0U, in = (uint32_t) v, o1 = 0x55555555U, o2 = 0x55555555U, o3 = 0x55555555U;
           yr_set_configuration((YR_CONFIG_NAME) key, &ones);
-          r1 = yr_set_configuration((YR_CONFIG_NAME) key, &in);
+          r1 = yr_set_configuration((YR_CONFIG_NAME) key, &in); nested_use();
           r2 = yr_get_configuration((YR_CONFIG_NAME) key, &o1); r3 = yr_get_configuration_uint32((YR_CONFIG_NAME) key, &o2);
           yr_set_configuration((YR_CONFIG_NAME) key, &ones);
-          r4 = yr_set_configuration_uint32((YR_CONFIG_NAME) key, (uint32_t) v); r5 = yr_get_configuration((YR_CONFIG_NAME) key, &o3);
+          r4 = yr_set_configuration_uint32((YR_CONFIG_NAME) key, (uint32_t) v); nested_use(); r5 = yr_get_configuration((YR_CONFIG_NAME) key, &o3);
           g1 = o1; g2 = o2; g3 = o3;
         }
         printf(" %llu:%llu,%llu,%llu:%d", (unsigned long long) v, (unsigned long long) g1, (unsigned long long) g2, (unsigned long long) g3,
                r1 | r2 | r3 | r4 | r5);
       }
       free(vals);
+      while (g_nest_open > 0) { yr_finalize(); g_nest_open--; }
       if (bits == 64) yr_set_configuration((YR_CONFIG_NAME) key, &keep64); else yr_set_configuration((YR_CONFIG_NAME) key, &keep32);
+    }
+    else if (!strcmp(cmd, "litseq"))
+    {
+      // a SEQUENCE of compilations on this thread: seq=<m><hex>,...  m = 'n' (fresh compiler) | 'c' (add to the current compiler
+      // when it has no error so far).  Per step the outcome; per compiler, when it is closed: R<number of its rules that match>
+      // (every accepted source is one rule with a true condition) or RX after an error.
+      char* seq = strdup(get("seq", "")); char* save = NULL;
+      YR_COMPILER* comp = NULL; CERR e; memset(&e, 0, sizeof e); int step = 0;
+      for (char* t = strtok_r(seq, ",", &save); ; t = strtok_r(NULL, ",", &save), step++)
+      {
+        int need_new = t == NULL || t[0] == 'n' || comp == NULL || e.errors > 0;
+        if (need_new && comp != NULL)
+        {
+          if (e.errors > 0) printf(" RX");
+          else
+          {
+            YR_RULES* rules = NULL; int hits = 0;
+            if (yr_compiler_get_rules(comp, &rules) != ERROR_SUCCESS) printf(" RGETRULES");
+            else
+            {
+              int rs = yr_rules_scan_mem(rules, (const uint8_t*) "abc", 3, 0, count_cb, &hits, 0);
+              if (rs != ERROR_SUCCESS) printf(" RSCAN:%s", errname(rs)); else printf(" R%d", hits);
+              yr_rules_destroy(rules);
+            }
+          }
+          yr_compiler_destroy(comp); comp = NULL;
+        }
+        if (t == NULL) break;
+        if (comp == NULL)
+        {
+          memset(&e, 0, sizeof e);
+          if (yr_compiler_create(&comp) != ERROR_SUCCESS) { printf(" COMPILER_CREATE_FAILED"); break; }
+          e.c = comp; yr_compiler_set_callback(comp, cerr_cb, &e);
+        }
+        size_t l; char* src = (char*) unhex(t + 1, &l);
+        int before = e.errors;
+        int errs = yr_compiler_add_string(comp, src, NULL);
+        free(src);
+        if (errs == 0 && e.errors == before) printf(" OK");
+        else { printf(" CERR:%s", errname(e.first_code)); if (e.errors == before) e.errors++; }
+      }
+      free(seq);
+      sanity();
     }
     else if (!strcmp(cmd, "scanblocks"))
     {
